@@ -36,3 +36,6 @@ pub(super) fn build_compression_header(ctx: &Context, records: &[Record]) -> Com
         tag_encodings: build_tag_encodings(records),
     }
 }
+
+#[cfg(kani)]
+pub(crate) use self::preservation_map::verif_kani_sm;
